@@ -257,3 +257,94 @@ def _(self: ElemK, survey: SurveyS) -> List[XNode]:
     ensures(len(result) == (2 if has_hint else 1))
     ensures(result[0] == LabelNode(self, survey))
     ensures(implies(has_hint, result[1] == HintNode(self, survey)))
+
+
+# ---------------------------------------------------------------- the translations one row contributes (C08, C07)
+
+# One entry of SurveyElement.get_translations as the itext builder reads it (`_setup_translations` uses exactly these four
+# keys; the entries for label/hint/guidance carry two more keys, commented "Not used" in the source, which this view
+# does not observe).
+TrItem = Obj("TrItem", path=str, lang=str, text=str, output_context=ElemK)
+
+
+@spec
+def TrSeg(e: ElemK, kind: str, d: StrMap, n: int) -> List[TrItem]:
+    """C08: "the label, hint, guidance hint, constraint message, required message ... that a user of that language is shown
+    ... equal the content of that row's matching language column": the first n language columns of one translatable cell
+    group of row e contribute, in column order, one entry each — filed under the row's own text id for that kind, under
+    exactly that column's language, holding exactly that column's text."""
+    if n <= 0:
+        return []
+    return TrSeg(e, kind, d, n - 1) + [{"path": XPathOf(e) + ":" + kind, "lang": keys(d)[n - 1],
+                                        "text": d[keys(d)[n - 1]], "output_context": e}]
+
+
+@spec
+def TrMsg(e: ElemK, kind: str, v: Opt[BindVal], dl: str, plain: bool) -> List[TrItem]:
+    """A bind message: one entry per language column; an unsuffixed message is shown through itext (under the default
+    language — "the unsuffixed column for the default language") only when it contains a reference."""
+    if v is None:
+        return []
+    if isinstance(some(v), dict):
+        return TrSeg(e, kind, some(v), len(keys(some(v))))
+    if plain and len(some(v)) > 0 and HasRef(some(v)):
+        return TrSeg(e, kind, {dl: some(v)}, 1)
+    return []
+
+
+@spec
+def TrShown(e: ElemK, kind: str, v: Opt[LabelVal], dl: str, plain: bool) -> List[TrItem]:
+    """A label / hint / guidance hint: one entry per language column; an unsuffixed cell "of itext-bearing elements counts
+    as the default language" (plain = the cell has to be shown through itext)."""
+    if v is None:
+        return []
+    if isinstance(some(v), dict):
+        return TrSeg(e, kind, some(v), len(keys(some(v))))
+    if plain and len(some(v)) > 0:
+        return TrSeg(e, kind, {dl: some(v)}, 1)
+    return []
+
+
+@contract("SurveyElement.get_translations")
+def _(self: ElemK, default_language: str) -> List[TrItem]:
+    properties("C08", "C07")
+    no_native("needs survey-element objects: exercised through the e2e oracles")
+    abstract_regex("pyxform.utils.BRACKETED_TAG_REGEX")
+    merge_paths()
+    B = some(self.bind)
+    has_bind = self.bind is not None and len(keys(B)) > 0
+    gh = self.guidance_hint is not None and len(some(self.guidance_hint)) > 0
+    # C08: every language column of every translatable cell of this row yields exactly one itext entry — under the row's
+    # own id for that kind, that language, that text — in the order constraint message, required message,
+    # noAppErrorString, label, hint, guidance hint; an unsuffixed label of an itext-bearing row, an unsuffixed guidance
+    # hint, and an unsuffixed hint next to a guidance hint are filed under the default language; and *nothing else* is
+    # yielded: no entry for a language the row's columns do not name, none with another row's id or text.
+    seg_cm = TrMsg(self, "jr:constraintMsg", B.get("jr:constraintMsg"), default_language, True) if has_bind else []
+    seg_rm = TrMsg(self, "jr:requiredMsg", B.get("jr:requiredMsg"), default_language, True) if has_bind else []
+    seg_nae = TrMsg(self, "jr:noAppErrorString", B.get("jr:noAppErrorString"), default_language, False) if has_bind else []
+    seg_label = TrShown(self, "label", self.label, default_language, NeedsItext(self))
+    seg_hint = TrShown(self, "hint", self.hint, default_language, gh)
+    seg_guidance = TrShown(self, "guidance_hint", self.guidance_hint, default_language, True)
+    ensures(result == seg_cm + seg_rm + seg_nae + seg_label + seg_hint + seg_guidance)
+    # proof structure: the sequence yielded so far is pinned to the specification at every segment boundary
+    cut_before_assign("required_msg", _yield == seg_cm)
+    cut_before_assign("no_app_error_string", _yield == seg_cm + seg_rm)
+    cut_before_assign("label_or_hint", _yield == seg_cm + seg_rm + seg_nae
+                      + ([] if display_element == "label" else seg_label)
+                      + (seg_hint if display_element == "guidance_hint" else []))
+
+    @loop(0, index="i")
+    def _():
+        invariant(_yield == _yield_at_entry + TrSeg(self, "jr:constraintMsg", constraint_msg, i))
+
+    @loop(1, index="i")
+    def _():
+        invariant(_yield == _yield_at_entry + TrSeg(self, "jr:requiredMsg", required_msg, i))
+
+    @loop(2, index="i")
+    def _():
+        invariant(_yield == _yield_at_entry + TrSeg(self, "jr:noAppErrorString", no_app_error_string, i))
+
+    @loop(4, index="i")
+    def _():
+        invariant(_yield == _yield_at_entry + TrSeg(self, display_element, label_or_hint, i))
